@@ -451,6 +451,8 @@ pub(crate) fn run(
     loop {
         // break from this loop to fail, causes stack to pop
         'fail: loop {
+            #[cfg(fancy_regex_verif)]
+            verif_hooks::tick(state.stack.len());
             #[cfg(feature = "std")]
             if option_flags & OPTION_TRACE != 0 {
                 println!("{}\t{} {:?}", ix, pc, prog.body[pc]);
@@ -719,6 +721,8 @@ pub(crate) fn run(
         }
 
         backtrack_count += 1;
+        #[cfg(fancy_regex_verif)]
+        verif_hooks::backtrack();
         if backtrack_count > options.backtrack_limit {
             return Err(Error::RuntimeError(RuntimeError::BacktrackLimitExceeded));
         }
@@ -726,6 +730,122 @@ pub(crate) fn run(
         let (newpc, newix) = state.pop();
         pc = newpc;
         ix = newix;
+    }
+}
+
+/// Verification hooks (only with `--cfg fancy_regex_verif`): a thin public wrapper over the
+/// private backtracking `State`, per-run statistics, and `run` with explicit flags and limit.
+#[cfg(fancy_regex_verif)]
+#[allow(missing_docs)]
+pub mod verif_hooks {
+    use super::*;
+    use core::cell::Cell;
+
+    std::thread_local! {
+        static INSNS: Cell<u64> = Cell::new(0);
+        static BACKTRACKS: Cell<u64> = Cell::new(0);
+        static PEAK: Cell<usize> = Cell::new(0);
+    }
+
+    #[inline]
+    pub(super) fn tick(depth: usize) {
+        INSNS.with(|c| c.set(c.get() + 1));
+        PEAK.with(|c| {
+            if depth > c.get() {
+                c.set(depth)
+            }
+        });
+    }
+
+    #[inline]
+    pub(super) fn backtrack() {
+        BACKTRACKS.with(|c| c.set(c.get() + 1));
+    }
+
+    pub fn reset_stats() {
+        INSNS.with(|c| c.set(0));
+        BACKTRACKS.with(|c| c.set(0));
+        PEAK.with(|c| c.set(0));
+    }
+
+    /// (instructions executed, backtracks taken, peak branch-stack depth) since `reset_stats`.
+    pub fn stats() -> (u64, u64, usize) {
+        (
+            INSNS.with(|c| c.get()),
+            BACKTRACKS.with(|c| c.get()),
+            PEAK.with(|c| c.get()),
+        )
+    }
+
+    pub const SKIPPED_EMPTY_MATCH: u32 = OPTION_SKIPPED_EMPTY_MATCH;
+    pub const MAX_STACK_DEFAULT: usize = MAX_STACK;
+
+    pub fn n_saves(prog: &Prog) -> usize {
+        prog.n_saves
+    }
+
+    /// `vm::run` with explicit option flags and backtrack limit.
+    pub fn run_with(
+        prog: &Prog,
+        s: &str,
+        pos: usize,
+        option_flags: u32,
+        backtrack_limit: usize,
+    ) -> Result<Option<Vec<usize>>> {
+        let options = RegexOptions {
+            backtrack_limit,
+            ..RegexOptions::default()
+        };
+        run(prog, s, pos, option_flags, &options)
+    }
+
+    /// Public wrapper over the VM's private backtracking state.
+    #[allow(missing_debug_implementations)]
+    pub struct StateProbe(State);
+
+    impl StateProbe {
+        pub fn new(n_saves: usize, max_stack: usize) -> StateProbe {
+            StateProbe(State::new(n_saves, max_stack, 0))
+        }
+        pub fn push(&mut self, pc: usize, ix: usize) -> bool {
+            self.0.push(pc, ix).is_ok()
+        }
+        pub fn pop(&mut self) -> (usize, usize) {
+            self.0.pop()
+        }
+        pub fn save(&mut self, slot: usize, val: usize) {
+            self.0.save(slot, val)
+        }
+        pub fn get(&self, slot: usize) -> usize {
+            self.0.get(slot)
+        }
+        pub fn stack_push(&mut self, val: usize) {
+            self.0.stack_push(val)
+        }
+        pub fn stack_pop(&mut self) -> usize {
+            self.0.stack_pop()
+        }
+        pub fn backtrack_count(&self) -> usize {
+            self.0.backtrack_count()
+        }
+        pub fn backtrack_cut(&mut self, count: usize) {
+            self.0.backtrack_cut(count)
+        }
+        pub fn saves(&self) -> Vec<usize> {
+            self.0.saves.clone()
+        }
+        pub fn stack(&self) -> Vec<(usize, usize, usize)> {
+            self.0.stack.iter().map(|b| (b.pc, b.ix, b.nsave)).collect()
+        }
+        pub fn oldsave(&self) -> Vec<(usize, usize)> {
+            self.0.oldsave.iter().map(|s| (s.slot, s.value)).collect()
+        }
+        pub fn nsave(&self) -> usize {
+            self.0.nsave
+        }
+        pub fn explicit_sp(&self) -> usize {
+            self.0.explicit_sp
+        }
     }
 }
 
